@@ -273,6 +273,7 @@ Definition lex_next (l : lexst) : tok * lexst :=
               | String c3 r2' =>
                 if (byte_of c3 =? 98)%N then (Some 2%N, str_pop tmp0, r2', S p2)
                 else if (byte_of c3 =? 120)%N then (Some 16%N, str_pop tmp0, r2', S p2)
+                else if (byte_of c3 =? 111)%N then (Some 8%N, str_pop tmp0, r2', S p2)
                 else (None, tmp0, r2, p2)
               | "" => (None, tmp0, r2, p2)
               end
